@@ -407,11 +407,16 @@ theorem datagram_received_decided (d : Bytes) (w : Option Nat) :
     by_cases h : d.length > w
     · simp only [h, decide_true, if_true]; exact Or.inr ⟨_, rfl⟩
     · simp only [h, decide_false, Bool.false_eq_true, if_false]
-      have hm : Gen.dgMustEvict d.length Datagrams.init.recvBuffered w = false := by
-        simp only [Gen.dgMustEvict, Datagrams.init]; simp; omega
-      simp only [Datagrams.init, List.length_nil, Nat.zero_add, Datagrams.evict] at hm ⊢
-      simp only [hm, Bool.false_eq_true, if_false]
-      exact Or.inl ⟨_, rfl⟩
+      by_cases hc : Gen.dgCostTooBig (Datagrams.recvCost d) w = true
+      · simp only [hc, if_true]; exact Or.inl ⟨_, rfl⟩
+      · have hc' : Gen.dgCostTooBig (Datagrams.recvCost d) w = false := by simpa using hc
+        have hcw : Datagrams.recvCost d ≤ w := by simpa [Gen.dgCostTooBig] using hc'
+        have hm : Gen.dgMustEvict (Datagrams.recvCost d) Datagrams.init.recvBuffered w = false := by
+          simp only [Gen.dgMustEvict, Datagrams.init]; simp; omega
+        simp only [hc', Bool.false_eq_true, if_false]
+        simp only [Datagrams.init, List.length_nil, Nat.zero_add, Datagrams.evict] at hm ⊢
+        simp only [hm, Bool.false_eq_true, if_false]
+        exact Or.inl ⟨_, rfl⟩
 
 /-- facts in the range the implementation's `u64` counters and the varint decoder guarantee -/
 structure FlagsOk (fl : ConnFlags) : Prop where
